@@ -440,8 +440,10 @@ impl Quantity {
     /// The values of both quantities, expressed in a common unit. Like for addition and
     /// subtraction, we use the smaller of the two units. This makes sure that comparisons
     /// do not depend on the order of the operands: `a == b` iff `b == a`, `a < b` iff `b > a`.
+    /// A zero is a zero in every unit (the type checker accepts `x > 0` for any dimension of `x`),
+    /// so no conversion is needed (or possible, for a scalar zero) if one of the values is zero.
     fn values_in_common_unit(&self, other: &Self) -> Result<(Number, Number)> {
-        if self.unit == other.unit {
+        if self.unit == other.unit || self.is_zero() || other.is_zero() {
             Ok((self.value, other.value))
         } else {
             let common_unit = self.unit.smaller_unit(&other.unit);
